@@ -990,7 +990,16 @@ def in_toto_record_stop(
         unfinished_fn_glob = UNFINISHED_FILENAME_FORMAT_GLOB.format(
             step_name=step_name, pattern="*"
         )
-        unfinished_fn_list = glob.glob(unfinished_fn_glob)
+        # The glob also matches preliminary links of other steps whose names
+        # extend this step's name by a dot (e.g. 'build.x' for 'build'): only
+        # keep files where the part matched by the pattern is a keyid prefix
+        keyid_start = len(".{}.".format(step_name))
+        keyid_end = -len(".link-unfinished")
+        unfinished_fn_list = [
+            fn
+            for fn in glob.glob(unfinished_fn_glob)
+            if "." not in fn[keyid_start:keyid_end]
+        ]
 
         if not unfinished_fn_list:
             raise in_toto.exceptions.LinkNotFoundError(
